@@ -194,7 +194,7 @@ pub fn exec(cx: &mut Ctx, c: &Case) {
         }
         api::force_backend(c.fb);
         let inc = guarded(|| {
-            let mut h = c.id.new();
+            let mut h: Box<dyn api::DynHash> = c.id.new();
             let mut at = 0;
             for &k in &cuts {
                 h.update(&m[at..k]);
